@@ -299,12 +299,20 @@ check("C03", "fault_enumeration",
       "(B) recorded-bit flips: one bit of one of the 7 recorded arrays of one record on one helper, pushed in forward and reversed "
       "order, for 5 widths; (C) transmitted-bit flips: census of every channel of 4 batches (product shares, proof, challenge, "
       "verification messages), every byte of the product-share messages x masks, a spread of bytes of the proof messages. "
-      "Oracle: honest => all three accept and products reconstruct; any flip => at least one helper rejects. "
-      "distinct_nontrivial = honest batches + flips that changed a byte.",
+      "(D) cheating prover (component level, the call sequence of Batch::validate on hand-built consistent intermediates of 1/2/5 (9) "
+      "blocks): a helper flips one transmitted product-share bit and then runs the real proof generation lying about that "
+      "multiplication's table index in every way (u or v index xor 1..7), with and without doctoring the first proof to the "
+      "expected sum, or adding +-1 to single proof entries; every cheater role, bit positions 0/77/255 (12 positions). "
+      "Oracle: honest => all three accept and products reconstruct; any flip => at least one honest helper rejects, whatever the "
+      "prover does afterwards. distinct_nontrivial = honest batches + flips that changed a byte + prover strategies.",
       [{"name": "dzkp", "config": "A", "test": "verif::c03::run", "timeout": {"quick": 1200, "thorough": 10800},
-        "require": {"any": {"honest_batches": 60, "recorded_flips": 100, "wire_rejected": 200, "channels_in_census": 20}}}],
+        "require": {"any": {"honest_batches": 60, "recorded_flips": 100, "wire_rejected": 200, "channels_in_census": 20}}},
+       {"name": "prover", "config": "A", "test": "protocol::ipa_prf::verif::c03p::run", "timeout": {"quick": 900, "thorough": 3600},
+        "require": {"any": {"cheating_prover_rejected": 500, "distinct:rejecting_verifier": 3}}}],
       assumptions=["soundness error of the proof system (~2^-61 per challenge) is not explored; seeds fixed",
-                   "the table identity of TABLE_U/TABLE_V (design item 1) is covered indirectly through acceptance/rejection only"],
+                   "the table identity of TABLE_U/TABLE_V (design item 1) is covered indirectly through acceptance/rejection only",
+                   "cheating-prover strategies are the listed family (index lies, first-proof sum fix, single-entry tampering); adaptive "
+                   "strategies that depend on the challenges are outside it"],
       exhaustive=True, engine="E3 fault + E5 domain",
       technique="exhaustive configuration grid of honest batches + exhaustive single-bit fault enumeration (recorded and "
                 "transmitted) on real three-helper executions",
@@ -318,9 +326,9 @@ check("C01", "exploration",
       "compared with an independent in-the-clear reference written from the property text. Inputs: all multisets of <= 3 (4) "
       "reports over the alphabet {impression, conversion} x {match key a, b} on one shard, both security modes; every assignment of "
       "<= 2 (3) reports to 2 and 3 shards; one 90-report input holding every group shape (single, pair II/IC/CI/CC, triple, "
-      "quadruple) with wrap-around of value (7+7, 4+4) and breakdown key (255+1, 128+128) on 1, 2, 3 shards with two "
+      "quadruple, groups of 5..9 and 11 reports) with wrap-around of value (7+7, 4+4) and breakdown key (255+1, 128+128) on 1, 2, 3 shards with two "
       "distributions, HV in {BA8, BA16}, with and without dummy-record padding; saturation inputs (36/37/40 pairs of value 7 in one "
-      "bucket). The same driver is built and run a second time with the compact step-identifier implementation (config E). "
+      "bucket); inputs of 255 / 256 / 257 (512) rows on one shard (the chunk size of share conversion and PRF evaluation). The same driver is built and run a second time with the compact step-identifier implementation (config E). "
       "distinct_nontrivial = executed inputs holding at least one attributed pair.",
       [{"name": "attribution", "config": "A", "test": "verif::c01::run", "workers": {"quick": 4, "thorough": 8},
         "timeout": {"quick": 1200, "thorough": 10800},
@@ -387,7 +395,8 @@ check("C06", "exploration",
 
 check("C07", "exploration",
       "integer_add (with carry), integer_sat_add, integer_sub, compare_geq, compare_gt for every pair of widths (x,y) in {1..4}^2 "
-      "with y no wider than x, integer_mul for every (x,y) width pair with x+y <= 6 (thorough: widths to 5, 8x8 boundary rows): every "
+      "with y no wider than x, integer_mul for every (x,y) width pair with x+y <= 6 (thorough: widths to 7, all 2^16 pairs of the 8-bit "
+      "adders / subtractor / comparisons in both modes, 8x8 boundary rows of the multiplier): every "
       "operand pair of the two widths as the records of one three-helper run, in the semi-honest DZKP context and (all width pairs in "
       "thorough, half of them in quick) in the proof-carrying malicious context where the proof must also verify; boundary-operand "
       "pairs for 16- and 64-bit words incl. narrower y; multiply over Fp31 on all 961 pairs. Oracle: consistent three-party sharing "
@@ -411,7 +420,7 @@ check("C07", "exploration",
       text="For each arithmetic / comparison circuit every operand pair of every small width combination (including unequal widths) is "
            "evaluated by the three real helpers in both execution modes and compared with the integer function; sharings must be "
            "consistent and proofs must verify.",
-      note="Widths 1..4 (5) exhaustively; 16/64-bit boundary operands.")
+      note="Widths 1..4 (7, and all 8-bit pairs) exhaustively; 16/64-bit boundary operands.")
 
 check("C11", "exploration",
       "the real Query::execute on every shard of a sharded TestWorld (malicious contexts, HPKE-encrypted length-delimited input) for "
@@ -431,7 +440,7 @@ check("C11", "exploration",
       text="Every placement of the second copy of every report, over 1-3 shards, is submitted to the real query entry point of all "
            "three helpers; the shard the copies are routed to must reject with the duplicate-report error and the query must not "
            "complete, while duplicate-free inputs must not be rejected for duplication.",
-      note="3 reports, <= 3 shards; routing targets are fixed by VERIF_SEED (ciphertext bytes).")
+      note="3 reports, <= 3 shards (thorough: 6 reports, <= 5 shards); routing targets are fixed by VERIF_SEED (ciphertext bytes).")
 
 check("C19", "model_checking",
       "reshard_iter / reshard_try_stream on every shard of TestWorld<WithShards<S>> for S in {1,2,3,5}: every input size 0..7 (12) "
